@@ -17,7 +17,7 @@ DEV = {
 	"fn": [-1, 0, 1, H - 2, H - 1, H, H + 1, None],
 	"tn": [-1, 0, 1, 6, 7, 8, None],
 	"pwr": [-1, 0, 1, 254, 255, 256, None],
-	"rssi": [-121, -120, -119, -48, -47, -46, 0, None],
+	"rssi": [-121, -120, -119, -48, -47, -46, 0, None, 47, 77, 120, 121],
 	"toa256": [-32769, -32768, -32767, 32766, 32767, 32768, None],
 	"ci": [-1281, -1280, -1279, 1279, 1280, 1281, None],
 	"tsc": [-1, 0, 1, 6, 7, 8, None],
